@@ -101,11 +101,15 @@ int wrap_live_allocs(void) { return heap_live; }
 #ifdef VERIF_COV
 void __gcov_dump(void);
 void __gcov_reset(void);
+static int cov_child = -1;
 #endif
 
 // ---------------------------------------------------------------- basics
 void wrap_init(void)
 {
+#ifdef VERIF_COV
+  cov_child = getenv("VERIF_COV_CHILD") != NULL;  // read now: scenarios replace the environment
+#endif
   W = mmap(NULL, sizeof(wshared), PROT_READ | PROT_WRITE,
            MAP_SHARED | MAP_ANONYMOUS, -1, 0);
   if (W == MAP_FAILED) {
@@ -422,7 +426,7 @@ pid_t __wrap_waitpid(pid_t pid, int *status, int options)
 // one pass gives exact parent-side numbers and a second one shows the child-side lines.
 static void cov_child_dump(void)
 {
-  if (w_side == 1 && getenv("VERIF_COV_CHILD")) __gcov_dump();
+  if (w_side == 1 && cov_child == 1) __gcov_dump();
 }
 #endif
 int __wrap_execvp(const char *file, char *const argv[])
